@@ -152,12 +152,95 @@ def restore_renamed(tree: ast.Module, modname: str, baseline: Optional[Dict[str,
             if (nq.rsplit('.', 1)[0] if '.' in nq else '') == parent_q:
                 _rename_everywhere(tree, fn.name, old_name, cls.name if cls is not None else None)
                 log.append('%s: %s was renamed to %s (similarity %.2f) - analysed under its old name' % (modname, q, nq, best_r))
+            elif _bring_home(tree, q, nq, fn, cls, known.get('params', {}).get(q)):
+                log.append('%s: %s was moved to %s (similarity %.2f) - analysed at its old place' % (modname, q, nq, best_r))
+                protected.add(fn.name)
             else:
                 log.append('%s: %s now lives at %s (similarity %.2f)' % (modname, q, nq, best_r))
                 ALIASES.setdefault(id(tree), {})[q] = nq
                 protected.add(fn.name)
     PROTECTED[id(tree)] = protected
     return log
+
+
+def _bring_home(tree: ast.Module, q: str, nq: str, fn: ast.AST, cls: Optional[ast.ClassDef], old_params: Optional[List[str]]) -> bool:
+    """A listed function was found in another scope of the same module (closure -> module level / private method, method ->
+    module level).  A copy under the old name is put back where it was and the calls there are turned back; True on success."""
+    old_name = q.rsplit('.', 1)[-1]
+    parent_q = q.rsplit('.', 1)[0] if '.' in q else ''
+    scopes = _scopes(tree)
+    new_is_method = cls is not None
+    names = set(_mangled(cls.name if cls is not None else None, fn.name))
+    g = copy.deepcopy(fn)
+    g.name = old_name
+    g.decorator_list = [d for d in g.decorator_list if not (isinstance(d, ast.Name) and d.id in ('staticmethod', 'classmethod'))]
+    static = len(g.decorator_list) != len(fn.decorator_list)
+    if g.decorator_list:
+        return False
+
+    def is_call_of_new(c: ast.Call) -> bool:
+        f = c.func
+        if isinstance(f, ast.Name) and f.id in names and not new_is_method:
+            return True
+        if isinstance(f, ast.Attribute) and f.attr in names and new_is_method and isinstance(f.value, ast.Name):
+            return True
+        return False
+    parent_fn = next((f2 for q2, f2, _, _ in scopes if q2 == parent_q), None)
+    parent_cls = next((c for c in ast.walk(tree) if isinstance(c, ast.ClassDef) and c.name == parent_q), None) if parent_fn is None else None
+    if parent_fn is not None:
+        # the old place is inside a function: a closure
+        if new_is_method and not static:
+            selfn = g.args.args[0].arg if g.args.args else None
+            pself = parent_fn.args.args[0].arg if parent_fn.args.args else None
+            if selfn is None:
+                return False
+            used = any(isinstance(n, ast.Name) and n.id == selfn for st in g.body for n in ast.walk(st))
+            if used and selfn != pself:
+                return False
+            g.args.args = g.args.args[1:]
+        for c in ast.walk(g):
+            if isinstance(c, ast.Call) and is_call_of_new(c):
+                c.func = ast.copy_location(ast.Name(old_name, ast.Load()), c.func)
+        hit = False
+        for c in ast.walk(parent_fn):
+            if isinstance(c, ast.Call) and is_call_of_new(c):
+                c.func = ast.copy_location(ast.Name(old_name, ast.Load()), c.func)
+                hit = True
+        if not hit:
+            return False
+        i = 1 if parent_fn.body and _is_doc_or_log(parent_fn.body[0]) else 0
+        parent_fn.body.insert(i, g)
+        ast.fix_missing_locations(tree)
+        return True
+    if parent_cls is not None and not new_is_method:
+        # the old place is a method of a class, the new one a module-level function
+        had_self = bool(old_params) and old_params[0] in ('self', 'cls')
+        if had_self and not (g.args.args and g.args.args[0].arg in ('self', 'cls')):
+            g.args.args.insert(0, ast.arg('self', None))
+        if not had_self:
+            g.decorator_list = [ast.Name('staticmethod', ast.Load())]
+
+        def fix(node, selfn):
+            for c in ast.walk(node):
+                if isinstance(c, ast.Call) and is_call_of_new(c):
+                    c.func = ast.copy_location(ast.Attribute(ast.Name(selfn, ast.Load()), old_name, ast.Load()), c.func)
+        for st in tree.body:
+            if st is not parent_cls and any(isinstance(c, ast.Call) and is_call_of_new(c) for c in ast.walk(st) if st is not fn):
+                if st is fn:
+                    continue
+                return False
+        fix(g, 'self')
+        for st in parent_cls.body:
+            if isinstance(st, (ast.FunctionDef, ast.AsyncFunctionDef)):
+                selfn = st.args.args[0].arg if st.args.args else None
+                if any(isinstance(c, ast.Call) and is_call_of_new(c) for c in ast.walk(st)):
+                    if selfn is None:
+                        return False
+                    fix(st, selfn)
+        parent_cls.body.append(g)
+        ast.fix_missing_locations(tree)
+        return True
+    return False
 
 
 # ---- inlining --------------------------------------------------------------------------------------------------
@@ -716,9 +799,107 @@ def _always_assigns(stmts: List[ast.stmt], target: ast.AST) -> bool:
     return False
 
 
-def canonical_decomposition(tree: ast.Module, modname: str, baseline_bodies: Optional[Dict[str, str]] = None) -> List[str]:
-    PROTECTED[id(tree)] = set()
-    log = restore_renamed(tree, modname, baseline_bodies)
+def restore_cross_module(trees: Dict[str, ast.Module]) -> Dict[str, List[str]]:
+    """step X (program level, after step R in every module): a listed function that is still missing in its module is looked for
+    among the *new module-level functions of the other yatiml modules* (a private method that never used `self`, moved to util.py).
+    It is brought home: a copy becomes a function / method of the original module under its old name (with `self` put back in
+    front when the frozen function had it), its recursive calls and the call sites in the original module are turned back into
+    calls of the old name.  The copy left behind in the other module stays where it is."""
+    logs: Dict[str, List[str]] = {}
+    known = known_functions()
+    new_fns = {}        # module -> [(name, FunctionDef)] module-level functions that the frozen tree does not have
+    for mod, tree in trees.items():
+        k = set(known.get(mod, {}).get('functions', []))
+        new_fns[mod] = [(q, fn) for q, fn, cls, _ in _scopes(tree) if '.' not in q and q not in k]
+    for mod, tree in trees.items():
+        k = known.get(mod)
+        if not k:
+            continue
+        scopes = _scopes(tree)
+        have = {q for q, _, _, _ in scopes} | set(ALIASES.get(id(tree), {}))
+        for q in k['functions']:
+            if q in have or q.count('.') > 1:
+                continue
+            want = k['bodies'].get(q)
+            if want is None:
+                continue
+            old_name = q.rsplit('.', 1)[-1]
+            cls_name = q.rsplit('.', 1)[0] if '.' in q else None
+            mentioned = {n.id for n in ast.walk(tree) if isinstance(n, ast.Name)} | {n.attr for n in ast.walk(tree) if isinstance(n, ast.Attribute)}
+            best, best_r, second = None, 0.0, 0.0
+            for m2, fns in new_fns.items():
+                if m2 == mod:
+                    continue
+                for name, fn in fns:
+                    r = difflib.SequenceMatcher(None, want.replace('self.<self-name>', '<self-name>'), _body_text(fn, fn.name)).ratio()
+                    if name in mentioned:
+                        r += 0.15
+                    if r > best_r:
+                        best, second, best_r = (m2, name, fn), best_r, r
+                    elif r > second:
+                        second = r
+            if best is None or best_r < 0.6 or best_r - second < 0.1:
+                continue
+            m2, name, fn = best
+            g = copy.deepcopy(fn)
+            g.name = old_name
+            had_self = (k.get('params', {}).get(q) or [''])[0] in ('self', 'cls')
+            target_body = tree.body
+            cls_node = None
+            if cls_name is not None:
+                cls_node = next((c for c in tree.body if isinstance(c, ast.ClassDef) and c.name == cls_name), None)
+                if cls_node is None:
+                    continue
+                target_body = cls_node.body
+            if had_self and not (g.args.args and g.args.args[0].arg in ('self', 'cls')):
+                g.args.args.insert(0, ast.arg('self', None))
+
+            def back(call_owner_self):
+                def fix(node):
+                    for c in ast.walk(node):
+                        if isinstance(c, ast.Call):
+                            f = c.func
+                            hit = (isinstance(f, ast.Name) and f.id == name) or (isinstance(f, ast.Attribute) and f.attr == name
+                                                                                 and isinstance(f.value, ast.Name) and f.value.id != 'self')
+                            if hit:
+                                if cls_node is not None and had_self:
+                                    c.func = ast.copy_location(ast.Attribute(ast.Name(call_owner_self, ast.Load()), old_name, ast.Load()), f)
+                                else:
+                                    c.func = ast.copy_location(ast.Name(old_name, ast.Load()), f)
+                return fix
+            back('self')(g)
+            ok = True
+            if cls_node is not None and had_self:
+                for st in cls_node.body:
+                    if isinstance(st, (ast.FunctionDef, ast.AsyncFunctionDef)):
+                        selfn = st.args.args[0].arg if st.args.args else None
+                        uses = any(isinstance(c, ast.Call) and isinstance(c.func, ast.Name) and c.func.id == name for c in ast.walk(st))
+                        if uses and selfn is None:
+                            ok = False
+                        elif uses:
+                            back(selfn)(st)
+                # a call from outside the class cannot be turned back into a method call
+                for st in tree.body:
+                    if st is not cls_node and any(isinstance(c, ast.Call) and isinstance(c.func, ast.Name) and c.func.id == name for c in ast.walk(st)):
+                        ok = False
+            else:
+                back(None)(tree)
+            if not ok:
+                continue
+            target_body.append(g)
+            ast.fix_missing_locations(tree)
+            logs.setdefault(mod, []).append('%s: %s now lives in %s as %s (similarity %.2f) - analysed at its old place' % (mod, q, m2, name, best_r))
+    return logs
+
+
+def canonical_decomposition(tree: ast.Module, modname: str, baseline_bodies: Optional[Dict[str, str]] = None,
+                            restored: bool = False) -> List[str]:
+    if restored:
+        log = []
+        PROTECTED.setdefault(id(tree), set())
+    else:
+        PROTECTED[id(tree)] = set()
+        log = restore_renamed(tree, modname, baseline_bodies)
     try:
         log += _Inliner(tree, modname).run()
     except RecursionError:
